@@ -1559,6 +1559,13 @@ func TestVerifEnum(t *testing.T) {
 	}
 	words := strings.Repeat("QUJDQUJDQUJDQUJDQUJDQUJDQUJDQUJD\n", 900)
 	cases = append(cases, endlessCase{"<pre>\n0\n</pre>\n", "<pre>\n" + words + "</pre>\n", ecData, 900 * 24}, endlessCase{refHead + "<pre>0</pre>", "<pre>QUJD</pre>", ecData, 3})
+	// one pre element that never ends, its text cut into small tokens by other tags (the decoder
+	// accepts markup inside pre): dense data, so that whatever is kept per word adds up quickly
+	word32 := "QUJDQUJDQUJDQUJDQUJDQUJDQUJDQUJD"
+	for _, f := range []string{word32 + "<i></i>", word32 + "\n<b>\n</b>", "QUJD<br/>"} {
+		cases = append(cases, endlessCase{prefix: "<pre>0", filler: f, class: ecStream}, endlessCase{prefix: refHead + "<pre>\n0\n", filler: f, class: ecStream})
+	}
+	cases = append(cases, endlessCase{"<pre>0", word32 + "<i></i>", ecData, 24}, endlessCase{refHead + "<pre>\n0\n", word32 + "\n<b>\n</b>", ecData, 24})
 	streamLimit := int64(8 << 20)
 	if thorough {
 		streamLimit = 64 << 20
